@@ -3,7 +3,6 @@ package props
 import (
 	"fmt"
 	"os"
-	"os/exec"
 	"path/filepath"
 	"sort"
 	"strings"
@@ -714,7 +713,11 @@ func c20Run(c *fw.Ctx, i int) {
 		path := filepath.Join(dir, fmt.Sprintf("c20-%d-%d.ged", os.Getpid(), i))
 		os.WriteFile(path, []byte(text), 0o644)
 		defer os.Remove(path)
-		out, err := exec.Command(bin, "warnings", path).CombinedOutput()
+		outS, err, okRun := runCLI(c, "cli-warnings", payload, nil, 60, bin, "warnings", path)
+		if !okRun {
+			return
+		}
+		out := []byte(outS)
 		c.Count("cli-runs", 1)
 		if err != nil {
 			c.Violation("cli-failed:warnings", fmt.Sprintf("gedcom warnings exited with %v:\n%s", err, clip(string(out), 800)), payload)
